@@ -68,6 +68,19 @@ func fieldSources(v ssa.Value, owner *types.Named, depth int, out map[string]boo
 		fieldSources(x.X, owner, depth+1, out)
 	case *ssa.ChangeType:
 		fieldSources(x.X, owner, depth+1, out)
+	case *ssa.Parameter:
+		// value handed in by the (package-local) callers
+		idx := -1
+		for i, q := range x.Parent().Params {
+			if q == x {
+				idx = i
+			}
+		}
+		for _, cs := range gCallSites[x.Parent()] {
+			if c := core.Common(cs); c != nil && idx >= 0 && idx < len(c.Args) {
+				fieldSources(c.Args[idx], owner, depth+1, out)
+			}
+		}
 	}
 }
 
@@ -109,31 +122,72 @@ func checkC16(p *core.Program, r *core.Report) {
 		r.Unresolved(R1, "provider Announce call in AnnounceMdnsEntry")
 		return
 	}
-	core.EachInstr(ann, func(in ssa.Instruction) {
-		switch x := in.(type) {
-		case *ssa.BinOp:
-			if x.Op != token.ADD {
-				return
-			}
-			k, ok := strConst(x.X)
-			if !ok || !strings.HasSuffix(k, "=") || strings.Count(k, "=") != 1 {
-				return
-			}
-			key := strings.TrimSuffix(k, "=")
-			w := &wkey{src: map[string]bool{}, pos: x.Pos(), unconditional: x.Block().Dominates(annCall.Block())}
-			if c, ok := strConst(x.Y); ok {
-				w.constVal = c
-			} else {
-				fieldSources(x.Y, mgr, 0, w.src)
-			}
-			writer[key] = w
-		case *ssa.Store:
-			if c, ok := strConst(x.Val); ok && strings.Count(c, "=") == 1 && !strings.HasSuffix(c, "=") {
-				kv := strings.SplitN(c, "=", 2)
-				writer[kv[0]] = &wkey{src: map[string]bool{}, constVal: kv[1], pos: x.Pos(), unconditional: x.Block().Dominates(annCall.Block())}
-			}
+	ensureCallSites(p)
+	// the TXT list may be assembled in package-local helpers called on the way to the Announce call
+	var scanWriter func(fn *ssa.Function, uncond bool, depth int)
+	scanned := map[*ssa.Function]bool{}
+	scanWriter = func(fn *ssa.Function, uncond bool, depth int) {
+		if scanned[fn] || fn.Blocks == nil {
+			return
 		}
-	})
+		scanned[fn] = true
+		onEveryPath := func(b *ssa.BasicBlock) bool {
+			if !uncond {
+				return false
+			}
+			if fn == ann {
+				return b.Dominates(annCall.Block())
+			}
+			for _, rb := range fn.Blocks {
+				if len(rb.Instrs) > 0 {
+					if _, isRet := rb.Instrs[len(rb.Instrs)-1].(*ssa.Return); isRet && !b.Dominates(rb) {
+						return false
+					}
+				}
+			}
+			return true
+		}
+		core.EachInstr(fn, func(in ssa.Instruction) {
+			switch x := in.(type) {
+			case *ssa.BinOp:
+				if x.Op != token.ADD {
+					return
+				}
+				k, ok := strConst(x.X)
+				if !ok || !strings.HasSuffix(k, "=") || strings.Count(k, "=") != 1 {
+					return
+				}
+				key := strings.TrimSuffix(k, "=")
+				w := &wkey{src: map[string]bool{}, pos: x.Pos(), unconditional: onEveryPath(x.Block())}
+				if c, ok := strConst(x.Y); ok {
+					w.constVal = c
+				} else {
+					fieldSources(x.Y, mgr, 0, w.src)
+				}
+				writer[key] = w
+			case *ssa.Store:
+				if c, ok := strConst(x.Val); ok && strings.Count(c, "=") == 1 && !strings.HasSuffix(c, "=") {
+					kv := strings.SplitN(c, "=", 2)
+					writer[kv[0]] = &wkey{src: map[string]bool{}, constVal: kv[1], pos: x.Pos(), unconditional: onEveryPath(x.Block())}
+				}
+			case *ssa.Call:
+				if t := x.Call.StaticCallee(); t != nil && depth > 0 && p.PkgShort(t) == "mdns" && t.Blocks != nil {
+					// only helpers that can contribute to the TXT list: they return strings / string slices
+					res := t.Signature.Results()
+					if res.Len() == 1 {
+						rt := res.At(0).Type().Underlying()
+						if sl, ok := rt.(*types.Slice); ok {
+							rt = sl.Elem().Underlying()
+						}
+						if b, ok := rt.(*types.Basic); ok && b.Info()&types.IsString != 0 {
+							scanWriter(t, onEveryPath(x.Block()), depth-1)
+						}
+					}
+				}
+			}
+		})
+	}
+	scanWriter(ann, true, 2)
 	// constants folded by the compiler: "path=" + shipWebsocketPath is one constant "path=/ship/"
 	// ---- reader table
 	var elements ssa.Value
@@ -293,7 +347,7 @@ func checkC16(p *core.Program, r *core.Report) {
 		r.Fail(R1, "register accepts exactly true/false", p.Pos(proc.Pos()), fmt.Sprintf("the reader compares register against %v", keysOf(regVals)))
 	}
 	regFromBool := false
-	core.EachInstr(ann, func(in ssa.Instruction) {
+	eachInstrWithCallees(p, ann, "mdns", 2, func(in ssa.Instruction) {
 		c := core.Common(in)
 		if c == nil {
 			return
